@@ -4,7 +4,7 @@ import json
 import re
 
 from ..common import Check, coq_eval, harness, load_findings
-from ..translate import gen_sites
+from ..translate import gen_sites, gen_unpack
 from . import c12_corr as CR
 from . import c12_streams as S
 from . import c12_strings as ST
@@ -12,6 +12,7 @@ from .c12_run import probe
 
 TRUSTED = [
     "Coq 8.16.1 kernel (coqc, vm_compute); no axioms: every theorem is 'Closed under the global context'",
+    "translator vplib/translate/gen_unpack.py (arms of resolve_special_func with the N of unpack::<N>; `.. -> internal <name>` declarations of std.prql with their parameter counts; fail closed)",
     "translator vplib/translate/gen_sites.py (regex/brace scanners over every library source file; counts per (file, kind) and text pins of the modelled functions; fail closed) and the recorded baseline coq/Model/SitesBaseline.v",
     "Model/Checked.v restates Rust's debug-build semantics of + - * neg on i64/usize/u16, checked_*/saturating_*/unsigned_abs, slicing, unwrap, assert!; Model/RangeArith.v and Model/Span.v restate range_of_ranges, the LIMIT/OFFSET lines, IdGenerator::skip/gen/load, the constant folding of std.neg, the window frame bounds, convert_lexer_error, composed by hand; they are run against the implementation on every run (take_sql, id_load, frame_bounds, static_neg: streams corr-*)",
     "Model/WidthArith.v (consume_width, reset_line, the widening loop of write_or_expand) and Model/ReviewedSites.v (guards of the sites added since the last baseline) restate private code that no entry point exposes: they are tied by the text pins of Gen/GenSites.v and by the probes (long tokens), not by an input/output comparison",
@@ -306,6 +307,7 @@ def probe_confirmed(ck, reqs, cap_ms):
 def run():
     ck = Check("C12", level="proof")
     ginfo = gen_sites.generate()
+    uinfo = gen_unpack.generate()
     pr = ck.prove()
     model_ok = True     # Model/*.vo do not depend on Gen/: the models stay executable when the translator fails closed
     rng = ck.rng
@@ -326,6 +328,7 @@ def run():
     CR.id_correspondence(ck)
     CR.frame_correspondence(ck)
     CR.neg_correspondence(ck)
+    CR.closure_correspondence(ck, uinfo)
 
     # 2. probe streams
     progs = S.all_programs()
@@ -485,6 +488,8 @@ def run():
     ck.proof_broken_violation(found_input=bool(ck.violations))
     if "error" in ginfo:
         ck.coverage["translator_error"] = ginfo["error"]
+    if "error" in uinfo:
+        ck.coverage["translator_error_unpack"] = uinfo["error"]
     ck.assumptions += [
         "harness is a debug build (overflow checks on), as DESIGN.md section 2 fixes; release builds wrap instead of panicking at the arithmetic sites",
         "a stack overflow is attributed to depth only through the recorded thresholds (known_findings.d/C12.json F8, measured with 8 MB and 64 MB stacks on this machine)",
